@@ -69,3 +69,16 @@ func debugDet(repo string) int {
 	}
 	return 0
 }
+
+func debugGuards(repo string) int {
+	w, err := LoadRepo(repo, BuildConfig{GOOS: "linux", GOARCH: "amd64"})
+	if err != nil {
+		fmt.Println("ERROR", err)
+		return 2
+	}
+	for _, cs := range w.CallsToFn(w.Fn("hashWithPackage")) {
+		ok, how := guardedByToObfuscate(w, cs.Instr, cs.Args()[0], 0)
+		fmt.Printf("%-24s %-45s pkg=%-40s name=%-30s guarded=%v %s\n", w.Pos(cs.Instr.Pos()), w.FuncName(cs.Fn), accessPath(cs.Args()[0]), valueDesc(cs.Args()[1]), ok, how)
+	}
+	return 0
+}
